@@ -161,6 +161,7 @@ class Run:
         self.streams = {}
         self.notes = []
         self.numerically_ambiguous = 0
+        self.pass_no = 0             # > 0: an extra pass after a source change (exhaustive streams are not repeated)
 
     def count(self, key, n=1):
         self.dist[key] = self.dist.get(key, 0) + n
@@ -168,9 +169,11 @@ class Run:
     def stream(self, name, lines, oracle=None, trivial=lambda line, out: out in ("", "E", "none") or out.startswith("ERR"),
                classify=None, compare_model=True):
         """run a correspondence stream: real + model + oracle on every real output"""
+        if self.pass_no > 0 and name.endswith("-exhaustive"):
+            return [], []
         lines = list(lines)
         if not lines:
-            return
+            return [], []
         t = time.time()
         real = proto.run_real(lines)
         model = proto.run_model(lines) if compare_model else [None] * len(lines)
@@ -205,7 +208,9 @@ class Run:
         if len(self.samples) < 12:
             k = len(lines) // 2
             self.samples.append({"stream": name, "op": lines[k][:600], "real_output": real[k][:400]})
-        self.streams[name] = {"ops": len(lines), "disagreements": nd, "wall_s": round(time.time() - t, 2)}
+        prev = self.streams.get(name, {"ops": 0, "disagreements": 0, "wall_s": 0})
+        self.streams[name] = {"ops": prev["ops"] + len(lines), "disagreements": prev["disagreements"] + nd,
+                              "wall_s": round(prev["wall_s"] + time.time() - t, 2)}
         return real, model
 
     def fail(self, stream, item, real, msg, sig=None):
